@@ -21,7 +21,7 @@ def register(cls):
 class Case:
     """guard: z3 Bool over the pre-state; outcome: ('return', SVal or checker) | ('raise', exception class name)"""
 
-    def __init__(self, name, guard, kind, value=None, exc=None, props=(), effects=None, check=None, finding=None):
+    def __init__(self, name, guard, kind, value=None, exc=None, props=(), effects=None, check=None, finding=None, check_exc=None):
         self.name = name
         self.guard = to_bool(guard)
         self.kind = kind
@@ -31,14 +31,20 @@ class Case:
         self.effects = effects  # callable(I) applying the specified state change (summary side)
         self.check = check  # callable(I, outcome_value) -> z3 Bool : extra/alternative result predicate
         self.finding = finding
+        self.check_exc = check_exc  # callable(I, excref) -> z3 Bool on the raised exception object
 
 
 def ret(name, guard, value=None, props=(), effects=None, check=None):
     return Case(name, guard, "return", value=value, props=props, effects=effects, check=check)
 
 
-def rai(name, guard, exc, props=(), effects=None):
-    return Case(name, guard, "raise", exc=exc, props=props, effects=effects)
+def rai(name, guard, exc, props=(), effects=None, check_exc=None):
+    return Case(name, guard, "raise", exc=exc, props=props, effects=effects, check_exc=check_exc)
+
+
+def unspecified(name, guard):
+    """inputs the contract says nothing about (no obligation; a summary may not be applied there)"""
+    return Case(name, guard, "any")
 
 
 def else_guard(cases):
@@ -87,6 +93,8 @@ class FunctionSpec:
             idx = I.P.choose([c.guard for c in cs])
             c = cs[idx]
             I.P.notes.append(("summary", spec.fq, c.name))
+            if c.kind == "any":
+                raise OutOfSubset("call of %s outside its contract (case %s)" % (spec.fq, c.name))
             if c.effects is not None:
                 c.effects(I)
             if c.kind == "raise":
@@ -236,9 +244,14 @@ def verify(spec, tier="quick", summaries=None, only_props=None):
                     continue
                 res.covers[c.name] = True
                 ob = Obligation("%s%s/post[%s]#p%d" % (short, vname, c.name, k), c.props or spec.props, "post")
+                if c.kind == "any":
+                    continue
                 if c.kind == "raise":
                     if outcome[0] == "raise" and exc_is(outcome[1], c.exc):
                         goal = True
+                        if c.check_exc is not None:
+                            goal = z3.Implies(c.guard, to_z3b(c.check_exc(I, outcome[1])))
+                            ob.detail = "attributes of the raised %s" % c.exc
                     else:
                         goal = z3.Not(c.guard)
                         ob.detail = "expected %s, body %s" % (c.exc, describe(outcome))
